@@ -23,7 +23,7 @@ def compiler_for(lang, family):
 
 
 def build(prog, d, family="gcc", dwarf=4, opt="-O0", kind="so", out=None, debug=True, extra=(), ldextra=(),
-          files=None, linker=None, strip_debug=False, srcdir=None):
+          files=None, linker=None, strip_debug=False, srcdir=None, post_compile=None):
     """Render prog into directory d (or srcdir) and build it.  Returns the path of the binary."""
     os.makedirs(d, exist_ok=True)
     srcdir = srcdir or d
@@ -48,6 +48,8 @@ def build(prog, d, family="gcc", dwarf=4, opt="-O0", kind="so", out=None, debug=
         argv[2:2] = list(extra)
         _run(argv, d)
         objs.append(obj)
+    if post_compile:
+        post_compile(objs)
     if out is None:
         out = os.path.join(d, {"so": "lib.so", "exec": "prog", "rel": "lib.o"}[kind])
     ld = []
